@@ -76,6 +76,42 @@ func pinger(s *Sess, period time.Duration, pingOnly bool, stop <-chan struct{}, 
 	}()
 }
 
+// edgePinger keeps the session alive with a PING every second until a time for its LAST line
+// arrives on `target`; the last PING is sent at that time (channel closed: stop at once).
+func edgePinger(s *Sess, target <-chan time.Time, wg *sync.WaitGroup) {
+	wg.Add(1)
+	go func() {
+		defer wg.Done()
+		var last time.Time
+		known, final := false, false
+		for k := 1; ; k++ {
+			if p := s.Post(fmt.Sprintf("PING :e%d", k), 0, 20*time.Second); p.status == 404 || final {
+				return
+			}
+			next := time.Now().Add(time.Second)
+			for time.Now().Before(next) {
+				if !known {
+					select {
+					case t, ok := <-target:
+						if !ok || t.IsZero() {
+							return
+						}
+						last, known = t, true
+					default:
+					}
+				}
+				if known && time.Until(last) <= 1300*time.Millisecond {
+					// no further line in between: the last one is due soon
+					time.Sleep(time.Until(last))
+					final = true
+					break
+				}
+				time.Sleep(50 * time.Millisecond)
+			}
+		}
+	}()
+}
+
 // waitQuit waits until `watcher`'s stream shows the QUIT of nick; returns the line.
 func waitQuit(watcher *Sess, nick string, deadline time.Duration) *Line {
 	lc := strings.ToLower(nick)
@@ -194,6 +230,21 @@ func (sc *Scenario) runMix(rng *rand.Rand, exp time.Duration) error {
 		wg.Wait()
 	}()
 
+	// two sessions whose last line is timed against the SECOND sweep (its time is known once the
+	// first one has been seen): one idle for 0.7 x expiration then (must stay), one idle for the
+	// expiration + 1.2 s (must go with that very sweep)
+	under, err := sc.session("under", "und"+fmt.Sprint(rng.Intn(90)+10), at(), true)
+	if err != nil {
+		return err
+	}
+	over, err := sc.session("over", "ovr"+fmt.Sprint(rng.Intn(90)+10), at(), true)
+	if err != nil {
+		return err
+	}
+	underT, overT := make(chan time.Time, 1), make(chan time.Time, 1)
+	edgePinger(under, underT, &wg)
+	edgePinger(over, overT, &wg)
+
 	sil, err := sc.session("silent", "sil"+fmt.Sprint(rng.Intn(90)+10), at(), true)
 	if err != nil {
 		return err
@@ -201,6 +252,15 @@ func (sc *Scenario) runMix(rng *rand.Rand, exp time.Duration) error {
 	idleSince := time.Now()
 	ok, _ := sc.waitExpiry(sil, act, idleSince, exp, "mix")
 	first := time.Now()
+	if ok && exp+1200*time.Millisecond < sweepInterval-2*time.Second {
+		tick2 := first.Add(sweepInterval)
+		underT <- tick2.Add(-exp * 7 / 10)
+		overT <- tick2.Add(-exp - 1200*time.Millisecond)
+		sc.c.rec.Raw("edges", "tick2", sc.c.rec.Ms(tick2), "under_last", sc.c.rec.Ms(tick2.Add(-exp*7/10)), "over_last", sc.c.rec.Ms(tick2.Add(-exp-1200*time.Millisecond)))
+	} else {
+		close(underT)
+		close(overT)
+	}
 	if ok {
 		// the silent session's own stream: ERROR, then the server ends the poll
 		sil.WaitLine(func(l *Line) bool { return parseIRC(l.data).cmd == "ERROR" }, 10*time.Second)
@@ -385,5 +445,75 @@ func (sc *Scenario) runFailover(rng *rand.Rand, exp time.Duration, how string, s
 	}
 	close(stopAll)
 	wg.Wait()
+	sc.foldProbe(nl)
+	return nil
+}
+
+// foldProbe asks a follower for a snapshot (GET /snapshot, as an administrator can) and records
+// which index its FSM.Snapshot kept as the first one (hook fsm.snapshot): the entries older than
+// "session expiration in force + sweep interval" are folded into the state. The follower's
+// stores lose those entries; the log is read from another node afterwards.
+func (sc *Scenario) foldProbe(leader int) {
+	c := sc.c
+	f := 0
+	for _, n := range c.nodes {
+		if n.id != leader && n.live() {
+			f = n.id
+		}
+	}
+	if f == 0 {
+		return
+	}
+	before := len(c.snapshots(f))
+	snd := c.rec.Now()
+	if code, _, _, err := c.private("GET", f, "/snapshot", nil, nil, 20*time.Second); err != nil || code != 200 {
+		sc.note("fold probe: GET /snapshot on node %d: %v HTTP %d", f, err, code)
+		return
+	}
+	end := time.Now().Add(15 * time.Second)
+	for time.Now().Before(end) {
+		if snaps := c.snapshots(f); len(snaps) > before {
+			e := newEv("snapshot")
+			e.N, e.T, e.T2 = int64(f), snd, c.rec.Now()
+			e.I, e.S = int64(snaps[len(snaps)-1][0]), int64(snaps[len(snaps)-1][1])
+			sc.extra = append(sc.extra, e)
+			c.rec.Raw("snapshot", "n", f, "first", e.I, "last", e.S)
+			return
+		}
+		time.Sleep(100 * time.Millisecond)
+	}
+	sc.note("fold probe: node %d recorded no fsm.snapshot within 15 s", f)
+}
+
+// ---------------------------------------------------------------- a services link that ends silently
+
+// runLinkGone (not part of the tiers; run by hand): a services link without pseudo-clients is
+// deleted; its QUIT produces no output, so its long poll stays open; the next line for "the
+// services" (a client JOIN) is addressed to the stale id in serverSessions.
+func (sc *Scenario) runLinkGone(rng *rand.Rand, exp time.Duration) error {
+	c := sc.c
+	if err := sc.setConfig(90 * time.Second); err != nil {
+		return err
+	}
+	act, err := sc.session("active", "lact"+fmt.Sprint(rng.Intn(90)+10), 1, true)
+	if err != nil {
+		return err
+	}
+	lnk, err := c.CreateSession("link", "services.verif", 1)
+	if err != nil {
+		return err
+	}
+	sc.sessions = append(sc.sessions, lnk)
+	lnk.StartReader()
+	for _, l := range []string{"PASS :services=" + servicesPw, "SERVER services.verif 1 :verif services"} {
+		if p := lnk.Post(l, 0, 30*time.Second); p.status != 200 {
+			return inconclusive("services link: %q not acknowledged", l)
+		}
+	}
+	time.Sleep(500 * time.Millisecond)
+	lnk.Delete("verif-bye link")
+	time.Sleep(500 * time.Millisecond)
+	act.Post("JOIN #other", 0, 20*time.Second)
+	time.Sleep(1500 * time.Millisecond)
 	return nil
 }
